@@ -8,6 +8,7 @@ CONSTANTS
   OrderClass = "any"
   CycleCheck = "set"
   Pass2Cancel = "flag"
+  Outermost = "coded"
   PropagateDespiteCycle = FALSE
 SPECIFICATION Spec
 CHECK_DEADLOCK FALSE
